@@ -5,7 +5,7 @@ import numpy as np
 
 from gen.dataset import random_spec
 from ref import templates as rt
-from vmon.core import call, hkey, scratch_dir
+from vmon.core import as_id, call, hkey, scratch_dir
 
 ID = 'C05'
 LEVEL = 'exploration'
@@ -111,7 +111,7 @@ def _dense(m, spec, desc, ctx, rng):
                     kw = {'unwhiten': unw}
                     if thr is not None:
                         kw['amplitude_threshold'] = thr
-                    r = call(m.get_template, t, **kw)
+                    r = call(m.get_template, as_id(t, t + len(kw)), **kw)
                     if not r.ok:
                         ctx.violation('raised', dict(desc, request=req), 'get_template raised %r' % r.exc,
                                       dict(base, exc=r.exc_name), tb=r.tb)
@@ -138,7 +138,7 @@ def _dense(m, spec, desc, ctx, rng):
             base = {'storage': 'dense', 'explicit': True, 'as_list': as_list}
             ctx.count(1, key=hkey(tuple(desc['seed']), t, 'explicit', q), nontrivial=True,
                       cell=('dense', 'explicit', 'list' if as_list else 'array'))
-            r = call(m.get_template, t, channel_ids=lst.tolist() if as_list else lst, unwhiten=unw)
+            r = call(m.get_template, as_id(t, t + len(lst)), channel_ids=lst.tolist() if as_list else lst, unwhiten=unw)
             if not r.ok:
                 ctx.violation('raised', dict(desc, request=req), 'get_template(explicit) raised %r' % r.exc,
                               dict(base, exc=r.exc_name), tb=r.tb)
@@ -150,9 +150,9 @@ def _dense(m, spec, desc, ctx, rng):
                     lst.tolist(), np.asarray(rec.channel_ids).tolist())))
             _report(ctx, desc, req, probs, base)
         # convenience accessors agree with the record
-        r0 = call(m.get_template, t)
-        r1 = call(m.get_template_channels, t)
-        r2 = call(m.get_template_waveforms, t)
+        r0 = call(m.get_template, as_id(t, t))
+        r1 = call(m.get_template_channels, as_id(t, t + 1))
+        r2 = call(m.get_template_waveforms, as_id(t, t + 2))
         ctx.count(1, cell=('dense', 'accessors'))
         if r0.ok and (not r1.ok or not r2.ok or not np.array_equal(r1.value, r0.value.channel_ids) or
                       not np.array_equal(r2.value, r0.value.template)):
@@ -163,7 +163,7 @@ def _dense(m, spec, desc, ctx, rng):
     for c in np.unique(sc).tolist():
         ids, cnt = np.unique(st[sc == c], return_counts=True)
         doms = ids[cnt == cnt.max()].tolist()
-        r = call(m.get_cluster_channels, c)
+        r = call(m.get_cluster_channels, as_id(c, c + 2))
         ctx.count(1, cell=('dense', 'cluster_channels'))
         if not r.ok:
             ctx.violation('raised', dict(desc, request={'cluster': c}), 'get_cluster_channels raised %r' % r.exc,
@@ -171,7 +171,7 @@ def _dense(m, spec, desc, ctx, rng):
             continue
         ok = False
         for tdom in doms:
-            rr = call(m.get_template_channels, tdom)
+            rr = call(m.get_template_channels, as_id(tdom, tdom + 3))
             if rr.ok and np.array_equal(rr.value, r.value):
                 ok = True
         if not ok:
@@ -189,7 +189,7 @@ def _sparse(m, spec, desc, ctx, rng):
             base = {'storage': 'sparse', 'explicit': False}
             ctx.count(1, key=hkey(tuple(desc['seed']), t, unw, 'sparse'), nontrivial=dropped,
                       cell=('sparse', 'unw%d' % unw, 'dropped%d' % dropped))
-            r = call(m.get_template, t, unwhiten=unw)
+            r = call(m.get_template, as_id(t, t + 4), unwhiten=unw)
             if not r.ok:
                 ctx.violation('raised', dict(desc, request=req), 'get_template raised %r' % r.exc,
                               dict(base, exc=r.exc_name), tb=r.tb)
